@@ -17,6 +17,7 @@ from ..pyfront import dotted, call_name, kwarg, params, src, walk_no_nested, con
 from . import c08
 
 EXPLANATION = (
+    'shrake_rupley is evaluated as a whole (sa/tensym.py) on a model trajectory of 5 atoms in 3 residues for atom / residue mode x (no selection, a selection, the empty selection) x changed radii, with probe 0 and radius 0 as extra cases: what the kernel receives in each role (roles read off the C call in the Cython wrapper) and what is returned, the kernel summarised as out[f, map[i]] += area(f, i) for selected i.  asa_frame is decided by value numbering of one generic iteration of each loop with path conditions decoded by value: target skipped iff mask[i] == 0; j a blocker iff j != i and |x_i - x_j|^2 < (R_i + R_j)^2 whatever the mask says about j; a point x_i + R_i s counted iff outside the blocker examined; area = count * 4 pi / n * R_i^2.  No kernel keeps a function-local static.  Further: '
     "Mask and accumulator discipline of shrake_rupley decided on the source of the three layers (sasa.py, the Cython wrapper, "
     "sasa.cpp through clang): first-access classification of the per-thread output buffer, a taint check that the selection "
     "mask reaches only the target loop's skip test, the -1 / 0 initialisation of the output, the residue mapping and its "
